@@ -405,12 +405,14 @@ def gen_faults(rs, sc, P):
             elif bias < 0.6:
                 cands = [1]
             k = rf.choice(cands)
-            if not P.get("allow_last_period_crash", True) and calls[k - 1] == last_t and kind == "crash":
+            if not P.get("allow_last_period_crash", True) and calls[k - 1] == last_t and kind in ("crash", "mutate_crash"):
                 continue
             f = {"kind": kind, "at_call": k}
             if kind == "crash":
                 f["resume"] = rf.choice(P["resume_modes"])
                 f["when"] = rf.choice(["before", "before", "after"])
+            elif kind == "mutate_crash":
+                f["resume"] = rf.choice(P["resume_modes"])
             elif kind == "malformed":
                 f["how"] = rf.choice(["unknown_station", "ragged"])
             elif kind == "beyond_horizon":
